@@ -299,6 +299,9 @@ func genSeqMap(prop string, seed uint64, tier string, kinds []string) *SeqScenar
 	if tier == "thorough" {
 		maxOps = 300
 		bulkMax = 6000
+		if g.r.Bool(0.03) {
+			bulkMax = 60000 // tens of thousands of keys: every grow threshold up to 2^15 buckets, more counter stripes
+		}
 	}
 	n := 5 + g.r.Intn(maxOps)
 	nkeys := 1 + g.r.Intn(12)
